@@ -1,4 +1,76 @@
-(* placeholder until proofs land *)
-From PV Require Import Model.AnnotationOps.
-Theorem C12_placeholder : True. Proof. exact I. Qed.
-Print Assumptions C12_placeholder.
+(* C12  Equality is content equality; record, dataframe and text forms round-trip.
+   Proved: == compares the track iterations, which (for track names with pairwise distinct printed
+   forms on each segment) depend only on the content of the track map -- not on insertion order,
+   uri, modality or caches; != is its negation; any single-element perturbation flips equality;
+   .3f formatting is within half a millisecond, str(segment) within one millisecond; the text
+   serialisers produce one line per track / segment and refuse exactly when a space is present.
+   Tied by the correspondence, not proved: the from_records / from_df / to_annotation round trips
+   and the exact text of the lines (compared string by string with the Text model). Statements only. *)
+From PV Require Import Model.Text Proofs.SupportP Proofs.AnnotationInvP Proofs.TextEqP Proofs.CanonicalIterP.
+
+Theorem C12_eq_compares_track_iterations : forall a b, ann_eq a b = true <-> itertracks a = itertracks b.
+Proof. exact ann_eq_spec. Qed.
+Theorem C12_ne_is_negation : forall a b, ann_ne a b = negb (ann_eq a b).
+Proof. exact ann_ne_spec. Qed.
+(* same content => same iteration, whatever the insertion order *)
+Theorem C12_iteration_depends_on_content_only : forall eps m1 m2, WF eps m1 -> WF eps m2 ->
+  all_distinct_str m1 -> all_distinct_str m2 ->
+  (forall s t, lookup m1 s t = lookup m2 s t) -> itertracks_m m1 = itertracks_m m2.
+Proof. exact itertracks_canonical. Qed.
+Theorem C12_eq_ignores_uri_modality_caches : forall a b, a_tracks a = a_tracks b -> ann_eq a b = true.
+Proof. exact ann_eq_ignores_metadata. Qed.
+Theorem C12_equal_annotations_hold_same_triples : forall a b, ann_eq a b = true ->
+  forall x, In x (itertracks a) <-> In x (itertracks b).
+Proof. exact ann_eq_same_triples. Qed.
+Theorem C12_one_differing_triple_flips_equality : forall a b x,
+  In x (itertracks a) -> ~ In x (itertracks b) -> ann_eq a b = false.
+Proof. exact perturbation_flips. Qed.
+Theorem C12_extra_or_missing_track_flips_equality : forall a b,
+  length (itertracks a) <> length (itertracks b) -> ann_eq a b = false.
+Proof. exact length_differs_flips. Qed.
+
+(* text forms *)
+Theorem C12_fmt3_within_half_millisecond : forall scale n, 0 < scale ->
+  let m := rhe (Z.abs n * 1000) scale in 2 * Z.abs (m * scale - Z.abs n * 1000) <= scale.
+Proof. exact fmt3_value_within_half_ms. Qed.
+Theorem C12_printed_segment_bound_within_one_millisecond : forall scale n, 0 < scale ->
+  let ms := Z.abs (str_helper_ms scale n) in
+  - scale <= 2 * (Z.abs n * 1000000 - ms * 1000 * scale) < 2 * 1000 * scale + scale.
+Proof. exact str_helper_within_1ms. Qed.
+Theorem C12_rttm_refused_iff_space : forall eps scale a,
+  rttm_lines eps scale a = None <->
+  (uri_has_space (a_uri a) = true \/ exists x, In x (itertracks a) /\ name_has_space (snd x) = true).
+Proof. exact rttm_refused_iff. Qed.
+Theorem C12_rttm_one_line_per_track : forall eps scale a ls,
+  rttm_lines eps scale a = Some ls -> length ls = length (itertracks a).
+Proof. exact rttm_one_line_per_track. Qed.
+Theorem C12_lab_refused_iff_space_in_label : forall eps scale a,
+  lab_lines eps scale a = None <-> exists x, In x (itertracks a) /\ name_has_space (snd x) = true.
+Proof. exact lab_refused_iff. Qed.
+Theorem C12_uem_refused_iff_space_in_uri : forall scale u t, uem_lines scale u t = None <-> uri_has_space u = true.
+Proof. exact uem_refused_iff. Qed.
+Theorem C12_uem_one_line_per_segment : forall scale u t ls, uem_lines scale u t = Some ls -> length ls = length t.
+Proof. exact uem_one_line_per_segment. Qed.
+
+Example C12_nonvacuous :
+  let a := ann_of 0 (Some "u"%string) None [((0, 4), NStr "x", NStr "a"); ((0, 4), NInt 0, NStr "b")] in
+  let b := ann_of 0 None (Some "m"%string) [((0, 4), NInt 0, NStr "b"); ((0, 4), NStr "x", NStr "a")] in
+  ann_eq a b = true /\ a_tracks a <> a_tracks b /\
+  fmt3 1024 (-3) = "-0.003"%string /\ fmt3 1024 1537 = "1.501"%string /\
+  seg_str 0 1024 (1369088, 1369518) = "[ 00:22:17.000 -->  00:22:17.419]"%string.
+Proof. vm_compute. repeat split; discriminate. Qed.
+
+Print Assumptions C12_eq_compares_track_iterations.
+Print Assumptions C12_ne_is_negation.
+Print Assumptions C12_iteration_depends_on_content_only.
+Print Assumptions C12_eq_ignores_uri_modality_caches.
+Print Assumptions C12_equal_annotations_hold_same_triples.
+Print Assumptions C12_one_differing_triple_flips_equality.
+Print Assumptions C12_extra_or_missing_track_flips_equality.
+Print Assumptions C12_fmt3_within_half_millisecond.
+Print Assumptions C12_printed_segment_bound_within_one_millisecond.
+Print Assumptions C12_rttm_refused_iff_space.
+Print Assumptions C12_rttm_one_line_per_track.
+Print Assumptions C12_lab_refused_iff_space_in_label.
+Print Assumptions C12_uem_refused_iff_space_in_uri.
+Print Assumptions C12_uem_one_line_per_segment.
